@@ -28,6 +28,8 @@ size_t strspn(const char *p, const char *set)
 int is_ipv4(const char *start, const char *end)
 __CPROVER_assigns(rec_ip4_calls, rec_ip4_rc, rec_ip4_start, rec_ip4_end)
 __CPROVER_ensures(rec_ip4_calls == __CPROVER_old(rec_ip4_calls) + 1 && rec_ip4_start == start && rec_ip4_end == end && rec_ip4_rc == __CPROVER_return_value && (__CPROVER_return_value == 0 || __CPROVER_return_value == 1))
+/* proved in job is_ipv4: an accepted IPv4 address starts with a digit */
+__CPROVER_ensures(__CPROVER_return_value != 0 ==> Q_IS_DIGIT(BYTE_AT(start)))
 ;
 
 #define RET __CPROVER_return_value
